@@ -287,4 +287,35 @@ theorem resumeRun_eq_oneShotR (P : Parser σ) (Inv : Buf → Nat → σ → Prop
       obtain ⟨s, rfl⟩ := hext x hx
       exact (hP b s o st o1 s1 hI hp).1
 
+/-- as `ResumableR`, for parsers whose resumption law needs a side condition on the buffer that was parsed
+    (e.g. the documented 65,535-byte limit) -/
+def ResumableRC (P : Parser σ) (Inv : Buf → Nat → σ → Prop) (obs : σ → τ) (C : Buf → Prop) : Prop :=
+  ∀ b s o st o' st', C b → Inv b o st → P b o st = (o', Err.moreBytes, st') →
+    RR obs (P (b ++ s) o' st') (P (b ++ s) o st) ∧ Inv (b ++ s) o' st'
+
+theorem resumeRun_eq_oneShotRC (P : Parser σ) (Inv : Buf → Nat → σ → Prop) (obs : σ → τ) (C : Buf → Prop)
+    (hP : ResumableRC P Inv obs C) (o : Nat) (st : σ) (l : List Buf) (hg : Growing l)
+    (hC : ∀ x ∈ l, C x) (h0 : ∀ b ∈ l.head?, Inv b o st) :
+    RR obs (resumeRun P o st l) (oneShotRun P o st l) := by
+  induction l generalizing o st with
+  | nil => exact RR.refl _ _
+  | cons b rest ih =>
+    cases rest with
+    | nil => exact RR.refl _ _
+    | cons b' rest' =>
+      simp only [resumeRun, oneShotRun]
+      have hI : Inv b o st := h0 b (by simp)
+      have hCb : C b := hC b List.mem_cons_self
+      rcases hp : P b o st with ⟨o1, e1, s1⟩
+      cases e1 <;> simp only <;> try exact RR.refl _ _
+      have hext := growing_ext hg
+      obtain ⟨s', hs'⟩ := hext b' List.mem_cons_self
+      have hI' : Inv b' o1 s1 := by rw [hs']; exact (hP b s' o st o1 s1 hCb hI hp).2
+      refine RR.trans (ih o1 s1 (growing_tail hg) (fun x hx => hC x (List.mem_cons_of_mem _ hx))
+        (by intro x hx; simp at hx; subst hx; exact hI')) ?_
+      apply oneShotRun_congrR P obs o o1 st s1 (b' :: rest') (by simp)
+      intro x hx
+      obtain ⟨s, rfl⟩ := hext x hx
+      exact (hP b s o st o1 s1 hCb hI hp).1
+
 end Sipsp
